@@ -239,6 +239,27 @@ theorem steps_terminate (names : Nat → Name) (ids : List Nat) (hn : ids.Nodup)
 theorem wait_returns (s : State) (ht : Terminal s) : waitEnabled s = true := by
   simp [waitEnabled, ht.1]
 
+/-- **A response is never written after the hand-over.**  The log of (request, response) pairs
+handed to completion callbacks only grows: whatever happens after a callback was invoked — later
+answers in any order, failures, the final drain — every pair observed at call time is still there,
+unchanged and in the same order, when the scenario has ended (`fired` is a log, newest first).  So
+what a consumer that RETAINS the responses sees at the end is what each callback saw when it was
+called; with `own_response`: each is still that test's own response.  (For the code this is the
+aliasing-freedom contract of `consumeOutput`: a fresh message per iteration; a reader that decodes
+every response into one message object hands all callbacks the same pointer, and a kept response
+turns into a later test's answer.) -/
+theorem handed_over_is_final (names : Nat → Name) (evs evs' : List Event) :
+    ∃ later, (run names init (evs ++ evs')).fired = later ++ (run names init evs).fired := by
+  rw [run_append]
+  exact run_fired_suffix names evs' _
+
+/-- … per request: the values a retaining consumer finds at the end for request `i` end with the
+values its callback was called with so far. -/
+theorem handed_over_is_final_per_request (names : Nat → Name) (evs evs' : List Event) (i : Nat) :
+    ∃ later, cbsOf (run names init (evs ++ evs')) i = later ++ cbsOf (run names init evs) i := by
+  obtain ⟨l, h⟩ := handed_over_is_final names evs evs'
+  exact ⟨(l.filter (fun f => f.1 == i)).map (·.2), by simp [cbsOf, h]⟩
+
 /-! ### a garbled length prefix is a failure of the stream like any other — never the end of the runner -/
 
 /-- **Top bit set.**  Whatever the client writes where the reader expects a length prefix: if the
@@ -446,6 +467,11 @@ example : let evs := demoFail.take 11
     (run demoNames init evs).rpc = .reading ∧ (run demoNames init evs).spc 0 = .ret .ok ∧ (run demoNames init evs).spc 1 = .ret .ok ∧
     cbsOf (run demoNames init (evs ++ failSeq)) 0 = [none] ∧ cbsOf (run demoNames init (evs ++ failSeq)) 1 = [some 11] ∧
     (run demoNames init (evs ++ failSeq)).rpc = .done ∧ isRunning (run demoNames init (evs ++ failSeq)) = false := by decide
+
+/-- `handed_over_is_final`: request 1 answered first, then request 0 fails: the pair (1, own response)
+seen at call time is still the last entry of the log at the end -/
+example : (run demoNames init (demoFail.take 11)).fired = [(1, some 11)] ∧
+    (run demoNames init demoFail).fired = [(0, none), (1, some 11)] := by decide
 
 /-- the hypotheses of `wait_never_left_waiting` / `wait_returns_without_exit` are satisfiable: the
 reader has finished, the client never ends; for both kinds of process seven own steps at most lead
